@@ -10,7 +10,7 @@ from ..gen.project import Gen, Knobs, build_system
 
 THEOREMS = [
     # defaultPostProcess
-    "PostProcess.subclasses_inverse", "PostProcess.subclasses_count",
+    "PostProcess.subclasses_inverse", "PostProcess.subclasses_count", "PostProcess.implementedBy_inverse",
     # property theorems (full strength, no hypothesis beyond "the operation did not raise")
     "Registry.inv_step", "Registry.inv_run", "Registry.Inv.invB", "Registry.invB_run",
     "Registry.registered_under_current_name", "Registry.registered_names_unique", "Registry.registered_exactly_once",
@@ -459,6 +459,114 @@ def stream_postprocess(ctx: Ctx, n: int) -> None:
     ctx.compare("postprocess", reqs, impls, pay)
 
 
+def zope_project(rng) -> List[Any]:
+    """packages that declare zope interfaces and implementers in every supported way, across modules, with
+    re-exported (moved) interfaces, names that lead nowhere or to a class that is not an interface, repeated
+    declarations and implementers defined twice"""
+    from ..gen.project import Unit
+    nI = rng.randint(1, 3)
+    ifaces = ["I%d" % k for k in range(nI)]
+    isrc = ["from zope.interface import Interface, Attribute"]
+    for k, n in enumerate(ifaces):
+        base = "Interface" if k == 0 or rng.random() < 0.6 else ifaces[rng.randrange(k)]
+        isrc += ["class %s(%s):" % (n, base), "    '''doc of %s'''" % n, "    def meth%d(a):" % k, "        '''meth doc'''", "    attr%d = Attribute('an attribute')" % k]
+    isrc += ["class NotAnInterface:", "    pass"]
+    reexport = rng.random() < 0.4
+    units = []
+    pkg_init = []
+    if reexport:
+        moved = rng.sample(ifaces, rng.randint(1, len(ifaces)))
+        pkg_init = ["from pk._ifaces import %s" % ", ".join(moved), "__all__ = %r" % moved]
+    units.append(Unit("pk", True, "\n".join(pkg_init) + "\n", None))
+    units.append(Unit("pk._ifaces", False, "\n".join(isrc) + "\n", "pk"))
+    for m in range(rng.randint(1, 2)):
+        lines = ["from zope.interface import implementer, implements, classImplements, moduleProvides, implementer_only",
+                 rng.choice(["from pk._ifaces import *", "from pk import _ifaces", "import pk._ifaces as ifs", "from pk._ifaces import %s, NotAnInterface" % ", ".join(ifaces)])]
+        how = lines[1]
+
+        def ref(n):
+            if how.startswith("from pk._ifaces import"):
+                return n
+            if how == "from pk import _ifaces":
+                return "_ifaces." + n
+            return "ifs." + n
+        if rng.random() < 0.3:
+            lines.append("moduleProvides(%s)" % ref(rng.choice(ifaces)))
+        for c in range(rng.randint(1, 3)):
+            cn = "Impl%d_%d" % (m, c)
+            targets = [ref(rng.choice(ifaces + ifaces + ["NotAnInterface", "Nowhere"])) for _ in range(rng.randint(1, 3))]
+            if reexport and rng.random() < 0.4:
+                targets.append("pk." + rng.choice(ifaces))
+            style = rng.choice(["decorator", "decorator", "implements", "classImplements", "only"])
+            base = "" if c == 0 or rng.random() < 0.5 else "(Impl%d_%d)" % (m, rng.randrange(c))
+            if style == "decorator":
+                lines += ["@implementer(%s)" % ", ".join(targets), "class %s%s:" % (cn, base), "    def meth0(self, a): pass"]
+            elif style == "only":
+                lines += ["@implementer_only(%s)" % ", ".join(targets), "class %s%s:" % (cn, base), "    pass"]
+            elif style == "implements":
+                lines += ["class %s%s:" % (cn, base), "    implements(%s)" % ", ".join(targets), "    def meth0(self, a): pass"]
+            else:
+                lines += ["class %s%s:" % (cn, base), "    pass", "classImplements(%s, %s)" % (cn, ", ".join(targets))]
+            if rng.random() < 0.15:
+                lines += ["@implementer(%s)" % targets[0], "class %s:" % cn, "    '''defined a second time'''"]
+        units.append(Unit("pk.m%d" % m, False, "\n".join(lines) + "\n", "pk"))
+    return units
+
+
+def stream_interfaces(ctx: Ctx, n: int) -> None:
+    """zope.interface declarations: `implementedby_directly` against PostProcess.implementedBy and the direct
+    oracle "implemented by is the inverse of implements" in both directions"""
+    from pydoctor import model
+    from pydoctor.extensions import zopeinterface as Z
+    reqs, impls, pay = [], [], []
+    for _ in range(n):
+        units = zope_project(ctx.rng)
+        src = {u.qname: u.source for u in units}
+        try:
+            system = build_system(units)
+        except Exception as e:
+            ctx.fail("analysis-crash:" + type(e).__name__, {"units": src}, f"{type(e).__name__}: {e}")
+            continue
+        objs = list(system.allobjects.values())
+        oid = {id(o): k for k, o in enumerate(objs)}
+        implementers = [o for o in objs if isinstance(o, (Z.ZopeInterfaceClass, Z.ZopeInterfaceModule))]
+        interfaces = [o for o in objs if isinstance(o, Z.ZopeInterfaceClass) and o.isinterface]
+        decls = []
+        for x in implementers:
+            for name in x.implements_directly:
+                try:
+                    t = system.find_object(name)
+                except LookupError:
+                    t = None
+                ok = isinstance(t, Z.ZopeInterfaceClass) and t.isinterface
+                decls.append("%d:%s" % (oid[id(x)], str(oid[id(t)]) if ok and id(t) in oid else "N"))
+                if t is not None and id(t) in oid and name != t.fullName():
+                    ctx.fail("implements-name-not-updated", {"units": src}, f"{x.fullName()}.implements_directly still says {name!r}, the object is {t.fullName()!r}")
+                # forward direction
+                if ok and not any(y is x for y in t.implementedby_directly):
+                    ctx.fail("implements-without-back-reference", {"units": src},
+                             f"{x.fullName()} declares {name}, but is not in {t.fullName()}.implementedby_directly")
+        for i in interfaces:
+            by = list(i.implementedby_directly)
+            if len({id(y) for y in by}) != len(by):
+                ctx.fail("implementedby-duplicate", {"units": src}, f"{i.fullName()}.implementedby_directly lists an implementer twice: {[y.fullName() for y in by]}")
+            for y in by:
+                # backward direction
+                if i.fullName() not in getattr(y, "implements_directly", []):
+                    ctx.fail("back-reference-without-implements", {"units": src},
+                             f"{i.fullName()}.implementedby_directly has {y.fullName()}, which does not declare it: {getattr(y, 'implements_directly', None)}")
+        if interfaces:
+            reqs.append("postprocess implementedby %s %s" % (",".join(str(oid[id(i)]) for i in interfaces), " ".join(decls)))
+            impls.append("ok " + " ".join("%d=%s" % (oid[id(i)], ",".join(str(oid.get(id(y), "?")) for y in i.implementedby_directly) or "-") for i in interfaces))
+            pay.append({"units": src, "what": "implementedby"})
+        ctx.case("interfaces " + repr(sorted(src.items())), any(i.implementedby_directly for i in interfaces))
+        ctx.count("interfaces:projects")
+        ctx.count("interfaces:declarations", len(decls))
+        ctx.count("interfaces:declarations-without-interface", sum(1 for d in decls if d.endswith(":N")))
+        ctx.count("interfaces:back-references", sum(len(i.implementedby_directly) for i in interfaces))
+    ctx.compare("interfaces", reqs, impls, pay)
+
+
 API_NAMES = ["a", "b", "C", "x", "x.setter", "setter", "m", "a 0"]
 
 
@@ -572,6 +680,7 @@ def run(ctx: Ctx) -> None:
     stream_projects(ctx, 250 if ctx.quick else 6000)
     stream_api(ctx, 1500 if ctx.quick else 40000)
     stream_postprocess(ctx, 250 if ctx.quick else 4000)
+    stream_interfaces(ctx, 150 if ctx.quick else 3000)
 
 
 def replay(ctx: Ctx, obj) -> int:
